@@ -30,6 +30,11 @@ class FOpen : Prop where
   excl : Gen.Fsx.openExcl = true
   mkdirFirst : Gen.Fsx.mkdirAllBeforeOpen = true
 
+theorem len_pos {α : Type} {l : List α} (h : l ≠ []) : 0 < l.length := by
+  cases l with
+  | nil => exact absurd rfl h
+  | cons a l => simp
+
 /-! ### get / set -/
 
 theorem get_root (fs : FS) : fs.get [] = some .dir := by simp [FS.get]
@@ -67,7 +72,8 @@ theorem Step.trans {P : Path → Node → Prop} {a b c : FS} (h1 : Step P a b) (
   | some m =>
     have := h2.1 q m hb
     rw [this] at hc
-    cases hc
+    have e : m = n := Option.some.inj hc
+    subst e
     exact h1.2 q m ha hb
 
 theorem Step.mono {P Q : Path → Node → Prop} {a b : FS} (h : Step P a b) (hPQ : ∀ q n, P q n → Q q n) :
@@ -152,16 +158,17 @@ theorem mkdirAllR_ok_get {fs : FS} {r : List Bytes} (h : (mkdirAllR fs r).1 = no
     unfold mkdirAllR at h ⊢
     cases h1 : fs.get (c :: up).reverse with
     | some x =>
+      rw [h1] at h
       cases x with
       | dir => exact h1
-      | file d => simp [h1] at h
+      | file d => exact absurd h (by simp)
     | none =>
+      rw [h1] at h
       rcases hres : mkdirAllR fs up with ⟨e, fs1⟩
+      rw [hres] at h
       cases e with
-      | some e => simp [h1, hres] at h
-      | none =>
-        simp only [h1, hres] at h ⊢
-        exact mkdir_ok_get h
+      | some e => exact absurd h (by simp)
+      | none => exact mkdir_ok_get h
 
 theorem mkdirAllR_succeeds {fs : FS} {r : List Bytes}
     (h : ∀ q : Path, q <+: r.reverse → ∀ d, fs.get q ≠ some (.file d)) : (mkdirAllR fs r).1 = none := by
@@ -195,6 +202,7 @@ theorem mkdirAllR_succeeds {fs : FS} {r : List Bytes}
           have := (hstep.2 _ n h1 hq).2
           have hl := this.length_le
           simp at hl
+          omega
       · rw [List.reverse_cons, List.dropLast_concat]
         exact hget
 
@@ -303,8 +311,8 @@ theorem writeOne_accepted [FOpen] {dir : Path} {fs : FS} {f : File} {ns : List B
   have hnotpre : ¬ (dir ++ ns <+: dir ++ ns.dropLast) := by
     intro hp
     have := hp.length_le
-    have hl : ns.length ≠ 0 := by simpa using hne
-    simp at this
+    have hl : 0 < ns.length := len_pos hne
+    rw [List.length_append, List.length_append, List.length_dropLast] at this
     omega
   unfold writeOne
   simp only [hrej, Bool.false_eq_true, if_false, FOpen.mkdirFirst, if_true, hfull, hdl]
@@ -327,7 +335,7 @@ theorem writeOne_accepted [FOpen] {dir : Path} {fs : FS} {f : File} {ns : List B
     · rw [hopen]
       simp only []
       rw [writeData_fresh _ _ hfne]
-      refine ⟨hmk'.trans ?_, fun _ => get_set_self _ _ hfne, fun _ _ => rfl⟩
+      refine ⟨hmk'.trans ?_, fun _ => get_set_self _ _ hfne, fun _ _ => by first | rfl | trivial⟩
       refine ⟨?_, ?_⟩
       · intro q n hq
         have hqne : q ≠ dir ++ ns := by intro e; subst e; rw [hnone] at hq; cases hq
@@ -374,8 +382,8 @@ theorem entryNew_inside {dir : Path} {ns : List Bytes} {data : Bytes} (hne : ns 
     refine Or.inl ⟨List.prefix_append _ _, ?_⟩
     intro e
     have := congrArg List.length e
-    have hl : ns.length ≠ 0 := by simpa using hne
-    simp at this
+    have hl : 0 < ns.length := len_pos hne
+    rw [List.length_append] at this
     omega
 
 theorem writeOne_inside [FRej] [FOpen] (dir : Path) (fs : FS) (f : File) :
